@@ -1520,7 +1520,7 @@ def _count_and_iter_receivers(facts, g):
     return counts, iters
 
 
-@rule("W16", ["C01", "C02"], floor=4, doc="sequence writers: the length prefix is len() of the whole container (a parameter or self, not a part of it "
+@rule("W16", ["C01", "C02", "C12"], floor=4, doc="sequence writers: the length prefix is len() of the whole container (a parameter or self, not a part of it "
       "such as one half of as_slices()), and every element loop runs over that same container")
 def w16(facts, tier):
     from .wire_rules import impl_pairs
@@ -1601,7 +1601,7 @@ def w16(facts, tier):
                 bad.append(f"after the element count has been written the function returns Ok without writing the elements when `{what}` holds "
                            f"(not a test of the count): the reader still reads that many elements")
         undecided = any("?" in p for p, _ in counts)
-        yield ob(["C01", "C02"], "W16", g["id"], "violation" if bad else ("undecided" if undecided else "pass"), where(g, counts[0][1]),
+        yield ob(["C01", "C02", "C12"], "W16", g["id"], "violation" if bad else ("undecided" if undecided else "pass"), where(g, counts[0][1]),
                  f"{g['id']}: " + ("; ".join(sorted(set(bad))[:2]) + (": the stored count and the stored elements disagree for a container whose "
                                    "storage is split (a wrapped VecDeque)" if any("part of" in b_ or "elements of" in b_ for b_ in bad) else "") if bad else
                                    f"count and elements are those of `{'.'.join(sorted(cps)[0])}`"))
